@@ -299,7 +299,12 @@ func rewrite(src, dst, dir string, passes map[string]bool) (bool, error) {
 		removeImport(f, "time")
 	}
 	var buf bytes.Buffer
-	fmt.Fprintf(&buf, "//line %s:1\n", src)
+	// No `//line` header: behind a line directive cmd/compile (go1.22+) no longer finds the file's
+	// language version and gives the file per-iteration loop variables although the module says
+	// go 1.14 — closures over loop variables in instrumented files would silently behave differently
+	// from the real build. Positions still name the /repo path (that is how -overlay works); only the
+	// line numbers of runtime.Caller shift by the lines the rewrite adds. Site strings carry the
+	// original line.
 	cfg := printer.Config{Mode: printer.UseSpaces | printer.TabIndent, Tabwidth: 8}
 	if err := cfg.Fprint(&buf, fset, f); err != nil {
 		return false, err
